@@ -1,28 +1,10 @@
 package main
 
-// The list of Go objects regenerated into Lean on every run (tie T).
+// Registry of the Go objects regenerated into Lean on every run (tie T). Each property
+// registers its own targets and fact extractors from targets_cXX.go via init().
 
-var targets = []Target{
-	{File: "TimeBin", Items: []Item{
-		{Pkg: "pkg/results", Kind: "func", Name: "BinTimestamp"},
-		{Pkg: "pkg/results", Kind: "func", Name: "CalcTimeBinSize"},
-		{Pkg: "pkg/types", Kind: "const", Name: "DefaultTimeResolution"},
-	}},
-	{File: "Classify", Items: []Item{
-		{Pkg: "pkg/capture/capturetypes", Kind: "func", Name: "ClassifyPacketDirectionV4"},
-		{Pkg: "pkg/capture/capturetypes", Kind: "func", Name: "ClassifyPacketDirectionV6"},
-		{Pkg: "pkg/capture/capturetypes", Kind: "func", Name: "EPHashV4.Reverse"},
-		{Pkg: "pkg/capture/capturetypes", Kind: "func", Name: "EPHashV6.Reverse"},
-		{Pkg: "pkg/capture/capturetypes", Kind: "func", Name: "EPHashV4.IsProbablyReverse"},
-		{Pkg: "pkg/capture/capturetypes", Kind: "func", Name: "EPHashV6.IsProbablyReverse"},
-	}},
-	{File: "Enums", Items: []Item{
-		{Pkg: "pkg/types", Kind: "func", Name: "Direction.String"},
-		{Pkg: "pkg/types", Kind: "func", Name: "DirectionFromString"},
-	}},
-	{File: "MergePlan", Items: []Item{
-		{Pkg: "pkg/goDB", Kind: "func", Name: "planDayMerge"},
-	}},
-}
+var targets []Target
 
 var factExtractors = map[string]func(*Loader) (any, error){}
+
+func addTargets(ts ...Target) { targets = append(targets, ts...) }
